@@ -28,6 +28,7 @@ var (
 	dir     = flag.String("dir", "/verif/dsim", "module directory to load packages from")
 	noAtom  = flag.Bool("noatomics", false, "do not yield before atomic operations")
 	verbose = flag.Bool("v", false, "verbose")
+	repoDir = flag.String("repo", "/repo", "root of the influxdb tree being instrumented (prefix stripped from site positions)")
 )
 
 type site struct {
@@ -43,7 +44,9 @@ func newSite(fset *token.FileSet, pos token.Pos, kind string) *ast.BasicLit {
 	p := fset.Position(pos)
 	id := int32(len(sites) + 1)
 	rel := p.Filename
-	if i := strings.Index(rel, "/repo/"); i >= 0 {
+	if pre := strings.TrimSuffix(*repoDir, "/") + "/"; strings.HasPrefix(rel, pre) {
+		rel = rel[len(pre):]
+	} else if i := strings.Index(rel, "/repo/"); i >= 0 {
 		rel = rel[i+6:]
 	}
 	sites = append(sites, site{id, fmt.Sprintf("%s:%d", rel, p.Line), kind})
@@ -429,6 +432,12 @@ func (r *rewriter) rewriteCall(c *astutil.Cursor, n *ast.CallExpr) {
 	}
 	rp, rn, _ := namedOf(sig.Recv().Type())
 	m := fn.Name()
+	if m == "Sync" && types.IsInterface(sig.Recv().Type()) && sig.Params().Len() == 0 && sig.Results().Len() == 1 {
+		// fsync through a minimal interface (tsm1 writer: `t.wrapped.(syncer).Sync()`): dispatch on the dynamic type
+		c.Replace(&ast.CallExpr{Fun: fs("AnySync"), Args: []ast.Expr{sel.X}})
+		r.changed, r.useFS = true, true
+		return
+	}
 	repl := func(e ast.Expr) {
 		c.Replace(e)
 		r.changed, r.useRT = true, true
